@@ -12,7 +12,7 @@ for d in ids:
         if "VIOLATION" in o:
             caught.append(c + (" (no-failing-input-found)" if "no-failing-input-found" in o else ""))
     missed = [c for c, o in runs.items() if "VIOLATION" not in o]
-    txt = ", ".join(caught) or "NOT CAUGHT"
+    txt = ", ".join(caught) or ("not reported - outside the properties' domain (needs a value made by an `_unchecked` constructor against its documented contract; see meta.json)" if j.get("outside_domain") else "NOT CAUGHT")
     if "caught_by_first" in j:
         txt += " — first run: " + (", ".join(j["caught_by_first"]) or "missed") + "; after strengthening the generators: as listed"
     print("| %s | %s | %s | %s |" % (d, cell(j.get("what", ""), 230), cell(j.get("needs", ""), 150), txt))
